@@ -67,13 +67,10 @@ func valueOf(sc interface{ String() string }) string { return sc.String() }
 // checkPV validates a principal variation against the reference result.
 func checkPV(pv []board.Move, root *oracle.Game, ref *refsearch.Result, depth int, rootValue refsearch.Value) error {
 	if len(pv) == 0 {
-		if ref.RootLegal > 0 && !ref.RootDrawn && len(ref.RootMoves) > 0 {
-			return fmt.Errorf("empty principal variation although the root has %d legal moves and is not drawn", ref.RootLegal)
+		if ref.RootLegal > 0 && len(ref.RootMoves) > 0 {
+			return fmt.Errorf("empty principal variation although the root has %d legal moves", ref.RootLegal)
 		}
 		return nil
-	}
-	if ref.RootDrawn {
-		return nil // nothing promised beyond legality, checked below
 	}
 	if len(pv) > depth {
 		return fmt.Errorf("principal variation %v is longer than the depth %d", pvText(pv), depth)
@@ -125,11 +122,8 @@ func setupSearch(c searchCase) (*board.Board, *oracle.Game, searchConfig, error)
 	if err != nil {
 		return nil, nil, cfg, err
 	}
-	if b.Result().Outcome == board.Draw && !g.DrawNow() {
-		// a draw rule fired earlier in the game but does not hold for this position: the
-		// property leaves the value of such a root open
-		return nil, nil, cfg, errDiscard
-	}
+	// Roots that carry a draw flag (a rule holds now, or fired earlier in the game) are searched
+	// like any other root: a claimable draw does not relieve the engine from moving.
 	return b, g, cfg, nil
 }
 
@@ -197,7 +191,10 @@ var checkC03 = def("C03/minimax", func(c searchCase) error {
 		labels, nt = append(labels, "draw-in-tree"), true
 	}
 	if ref.RootDrawn {
-		labels = append(labels, "root-drawn")
+		labels = append(labels, "root-drawn-now")
+	}
+	if b.Result().Outcome == board.Draw && !ref.RootDrawn {
+		labels = append(labels, "root-draw-flag-from-earlier")
 	}
 	if ref.Value.Class != refsearch.Heuristic {
 		labels, nt = append(labels, "mate-valued-root"), true
